@@ -41,6 +41,13 @@ type half struct {
 	failOnce bool
 	// maxRead > 0 limits every Read to at most that many bytes (fragmentation)
 	maxRead int
+	// capacity > 0 models a full socket buffer: a write waits while that many bytes (or more)
+	// are unread, until the reader drains or closes or the write deadline passes
+	capacity int
+	// stalled: the reading end does not take delivery (an application that has stopped reading)
+	stalled  bool
+	wdl      time.Time
+	wdlTimer *time.Timer
 }
 
 func newHalf() *half {
@@ -70,6 +77,10 @@ func (h *half) read(p []byte) (int, error) {
 			}
 			return 0, err
 		}
+		if h.stalled {
+			h.cond.Wait()
+			continue
+		}
 		if len(h.buf) > 0 {
 			n := len(p)
 			if n > len(h.buf) {
@@ -84,6 +95,9 @@ func (h *half) read(p []byte) (int, error) {
 			copy(p, h.buf[:n])
 			h.buf = h.buf[n:]
 			h.nread += int64(n)
+			if h.capacity > 0 {
+				h.cond.Broadcast() // a writer may be waiting for room
+			}
 			if len(p) == 0 {
 				return 0, nil
 			}
@@ -111,6 +125,18 @@ func (h *half) write(p []byte) (int, error) {
 	if h.rclosed {
 		return 0, errors.New("fakenet: broken pipe")
 	}
+	for h.capacity > 0 && len(h.buf) >= h.capacity {
+		if !h.wdl.IsZero() && !time.Now().Before(h.wdl) {
+			return 0, timeoutError{}
+		}
+		h.cond.Wait()
+		if h.wclosed {
+			return 0, net.ErrClosed
+		}
+		if h.rclosed {
+			return 0, errors.New("fakenet: broken pipe")
+		}
+	}
 	h.buf = append(h.buf, p...)
 	h.nwritten += int64(len(p))
 	h.cond.Broadcast()
@@ -131,6 +157,28 @@ func (h *half) setReadDeadline(t time.Time) {
 			h.cond.Broadcast()
 		} else {
 			h.rdlTimer = time.AfterFunc(d, func() {
+				h.mu.Lock()
+				h.cond.Broadcast()
+				h.mu.Unlock()
+			})
+		}
+	}
+}
+
+func (h *half) setWriteDeadline(t time.Time) {
+	h.mu.Lock()
+	defer h.mu.Unlock()
+	h.wdl = t
+	if h.wdlTimer != nil {
+		h.wdlTimer.Stop()
+		h.wdlTimer = nil
+	}
+	if !t.IsZero() {
+		d := time.Until(t)
+		if d <= 0 {
+			h.cond.Broadcast()
+		} else {
+			h.wdlTimer = time.AfterFunc(d, func() {
 				h.mu.Lock()
 				h.cond.Broadcast()
 				h.mu.Unlock()
@@ -194,10 +242,29 @@ func (c *Conn) LocalAddr() net.Addr  { return c.la }
 func (c *Conn) RemoteAddr() net.Addr { return c.ra }
 func (c *Conn) SetDeadline(t time.Time) error {
 	c.r.setReadDeadline(t)
+	c.w.setWriteDeadline(t)
 	return nil
 }
 func (c *Conn) SetReadDeadline(t time.Time) error  { c.r.setReadDeadline(t); return nil }
-func (c *Conn) SetWriteDeadline(t time.Time) error { return nil }
+func (c *Conn) SetWriteDeadline(t time.Time) error { c.w.setWriteDeadline(t); return nil }
+
+// StallReads makes this end stop taking delivery (its reads wait although bytes are there), like
+// an application that has stopped reading; with LimitReceiveBuffer the peer's writes then block.
+func (c *Conn) StallReads(on bool) {
+	c.r.mu.Lock()
+	c.r.stalled = on
+	c.r.cond.Broadcast()
+	c.r.mu.Unlock()
+}
+
+// LimitReceiveBuffer makes the peer's writes to this end wait once n bytes are unread here
+// (a peer that reads slowly or not at all: back-pressure); 0 lifts the limit.
+func (c *Conn) LimitReceiveBuffer(n int) {
+	c.r.mu.Lock()
+	c.r.capacity = n
+	c.r.cond.Broadcast()
+	c.r.mu.Unlock()
+}
 
 // BytesRead is the number of bytes this end has consumed from its peer.
 func (c *Conn) BytesRead() int64 {
